@@ -105,22 +105,31 @@ func (s *BadSmellListener) EnterInterfaceDeclaration(ctx *InterfaceDeclarationCo
 }
 
 func (s *BadSmellListener) EnterInterfaceMethodDeclaration(ctx *InterfaceMethodDeclarationContext) {
+	enterInterfaceMethod(ctx, ctx.InterfaceCommonBodyDeclaration(), ctx.AllInterfaceMethodModifier())
+}
+
+// `<T> T pick(T a);` is a rule of its own in the grammar, it does not contain an interfaceMethodDeclaration
+func (s *BadSmellListener) EnterGenericInterfaceMethodDeclaration(ctx *GenericInterfaceMethodDeclarationContext) {
+	enterInterfaceMethod(ctx, ctx.InterfaceCommonBodyDeclaration(), ctx.AllInterfaceMethodModifier())
+}
+
+func enterInterfaceMethod(ctx antlr.ParserRuleContext, body IInterfaceCommonBodyDeclarationContext, methodModifiers []IInterfaceMethodModifierContext) {
 	startLine := ctx.GetStart().GetLine()
-	startLinePosition := ctx.InterfaceCommonBodyDeclaration().GetStart().GetColumn()
+	startLinePosition := body.GetStart().GetColumn()
 	stopLine := ctx.GetStop().GetLine()
-	name := ctx.InterfaceCommonBodyDeclaration().(*InterfaceCommonBodyDeclarationContext).Identifier().GetText()
+	name := body.(*InterfaceCommonBodyDeclarationContext).Identifier().GetText()
 	stopLinePosition := startLinePosition + len(name)
-	methodBody := ctx.InterfaceCommonBodyDeclaration().GetText()
+	methodBody := body.GetText()
 
 	var modifiers []string
-	for _, mo := range ctx.AllInterfaceMethodModifier() {
+	for _, mo := range methodModifiers {
 		modifiers = append(modifiers, mo.GetText())
 	}
 
-	typeType :=  ctx.InterfaceCommonBodyDeclaration().(*InterfaceCommonBodyDeclarationContext).TypeTypeOrVoid().GetText()
+	typeType :=  body.(*InterfaceCommonBodyDeclarationContext).TypeTypeOrVoid().GetText()
 
 	var methodParams []core_domain.CodeProperty = nil
-	parameters := ctx.InterfaceCommonBodyDeclaration().(*InterfaceCommonBodyDeclarationContext).FormalParameters()
+	parameters := body.(*InterfaceCommonBodyDeclarationContext).FormalParameters()
 	if parameters != nil {
 		if reflect.TypeOf(parameters.GetChild(1)).String() == "*parser.FormalParameterListContext" {
 			allFormal := parameters.GetChild(1).(*FormalParameterListContext)
